@@ -7,6 +7,7 @@
 EXTENDS StreamOps, TLC, Json, CSV, IOUtils
 
 VARIABLES l, res
+Cmd == INSTANCE Command
 
 Trace == ndJsonDeserialize(IOEnv.VERIF_TRACE)
 
@@ -18,18 +19,24 @@ KeepSet(e) == {r \in 1..Len(e.keep) : e.keep[r] = 1}
 AllItems(bs) == LET RECURSIVE F(_) F(k) == IF k > Len(bs) THEN <<>> ELSE bs[k].items \o F(k + 1) IN F(1)
 
 Verdict(e) ==
-  LET inp == IF e.op = "cmd" THEN <<>> ELSE MkFrom(e.sizes, 0)
-      in2 == IF e.op = "cmd" THEN <<>> ELSE MkFrom(e.sizes2, 100)
-      in3 == IF e.op = "cmd" THEN <<>> ELSE MkFrom(e.sizes3, 200)
-      out == e.out
-      K   == IF e.op = "cmd" THEN {} ELSE KeepSet(e)
+  LET iscmd == e.op \in {"cmd", "count"}
+      inp == IF iscmd THEN <<>> ELSE MkFrom(e.sizes, 0)
+      in2 == IF iscmd THEN <<>> ELSE MkFrom(e.sizes2, 100)
+      in3 == IF iscmd THEN <<>> ELSE MkFrom(e.sizes3, 200)
+      out == IF e.op = "count" THEN <<>> ELSE e.out
+      K   == IF iscmd THEN {} ELSE KeepSet(e)
   IN
   IF e.hung # 0 THEN "hung"
   ELSE IF e.fatal # 0 THEN "fatal"
   ELSE IF e.op = "cmd" THEN
        (* end-to-end command: stdout ids = the selected records of the files, in input order *)
        IF e.rc # 0 THEN "exit-status"
-       ELSE IF e.out = SelectSeq(e.records, LAMBDA r : e.lens[r] >= e.minlen) THEN "ok" ELSE "records"
+       ELSE IF e.out = Cmd!Stdout(e.files, LAMBDA r : e.lens[r] >= e.minlen) THEN "ok" ELSE "records"
+  ELSE IF e.op = "count" THEN
+       (* obicount / obisummary: the totals are the conservation law of Command.tla *)
+       IF e.rc # 0 THEN "exit-status"
+       ELSE IF [variants |-> e.variants, reads |-> e.reads, symbols |-> e.symbols] = Cmd!Totals(e.files, e.lens, e.counts)
+            THEN "ok" ELSE "totals"
   ELSE IF e.op = "pool_workers" THEN
        IF ~OrderContract(out) THEN "order-contract"
        ELSE IF Len(out) # Len(inp) THEN "batch-count"
